@@ -142,6 +142,13 @@ Theorem C11_unset_deadline_from_source : forall s,
     t_read x = tod /\ t_unc x = uncaught /\ t_ds x = deadlines s' /\ t_armed x = armed s' /\ t_tod x = timed_out s'.
 Proof. exact generated_unset_deadline. Qed.
 
+(* (F19, repaired) entering a block forgets a stale record of an earlier timeout, but not the record of an ENCLOSING block
+   that is still active - its cancellation is being delivered and this block was entered while it unwinds, e.g. in a
+   finally clause; the enclosing block then still recognises its own timeout (C11_reporting_level is about aexit) *)
+Theorem C11_entry_keeps_inflight_record : forall s d,
+  timed_out (set_deadline s d) = if opt_in (timed_out s) (deadlines s) then timed_out s else None.
+Proof. exact entry_keeps_inflight_record. Qed.
+
 Print Assumptions C11_facts.
 Print Assumptions C11_early_unaffected.
 Print Assumptions C11_fires_not_earlier.
@@ -159,3 +166,4 @@ Print Assumptions C11_aexit_from_source.
 Print Assumptions C11_deadline_code_known.
 Print Assumptions C11_set_deadline_from_source.
 Print Assumptions C11_unset_deadline_from_source.
+Print Assumptions C11_entry_keeps_inflight_record.
